@@ -1,6 +1,6 @@
 (* C10: KL(p || q) >= 0 in the Cholesky form the code computes (over R), and = 0 for identical arguments. *)
 From Coq Require Import Reals Lra Lia Arith.
-From GPV Require Import Base.LinAlg Base.Expr.
+From GPV Require Import Base.LinAlg Base.Expr Models.C10_mvn Proofs.C10_mvn.
 Local Open Scope R_scope.
 
 (* x - 1 - ln x >= 0 for x > 0 *)
@@ -81,4 +81,79 @@ Proof.
     { induction m as [|m IH]; [reflexivity|]. cbn [rsum]. rewrite IH, Nat.eqb_refl, Rmult_1_l, ln_1. lra. }
     apply E. }
   rewrite Cz, D. lra.
+Qed.
+
+(* ---- link with the model's KL: its rational part IS the Cholesky form (generic field, all n) *)
+Section Chol.
+Context {K : Fld}.
+Add Field Ff_c10kl : (@FT K).
+Local Open Scope fld_scope.
+
+Lemma trace_cyclic n m (A B : M) : trace n (mmul m A B) = trace m (mmul n B A).
+Proof.
+  unfold trace, mmul. rewrite sum_swap. apply sum_ext. intros l _. apply sum_ext. intros i _. ring.
+Qed.
+
+(* tr( (Li^T Li) (Lp Lp^T) ) = tr( W W^T ) for W = Li Lp *)
+Lemma trace_chol n (Lp Li : M) :
+  trace n (mmul n (mmul n (mT Li) Li) (mmul n Lp (mT Lp)))
+  = trace n (mmul n (mmul n Li Lp) (mT (mmul n Li Lp))).
+Proof.
+  rewrite (trace_compat n _ (mmul n (mT Li) (mmul n Li (mmul n Lp (mT Lp))))) by apply mmul_assoc.
+  rewrite trace_cyclic.
+  apply trace_compat.
+  rewrite (mT_mmul n n n Li Lp).
+  rewrite (mmul_assoc n n n n Li (mmul n Lp (mT Lp)) (mT Li)).
+  rewrite (mmul_assoc n n n n Lp (mT Lp) (mT Li)).
+  rewrite (mmul_assoc n n n n Li Lp (mmul n (mT Lp) (mT Li))). reflexivity.
+Qed.
+
+(* r^T (Li^T Li) r = |Li r|^2 *)
+Lemma quad_chol n (Li r : M) :
+  quad n (mmul n (mT Li) Li) r = sum n (fun a => mmul n Li r a O * mmul n Li r a O).
+Proof.
+  unfold quad.
+  transitivity (mmul n (mT (mmul n Li r)) (mmul n Li r) O O); [|reflexivity].
+  assert (E : meq 1 1 (mmul n (mT r) (mmul n (mmul n (mT Li) Li) r)) (mmul n (mT (mmul n Li r)) (mmul n Li r))).
+  { rewrite (mT_mmul 1 n n Li r).
+    rewrite (mmul_assoc n 1 n n (mT Li) Li r).
+    rewrite (mmul_assoc 1 1 n n (mT r) (mT Li) (mmul n Li r)). reflexivity. }
+  apply E; lia.
+Qed.
+
+Theorem kl_rational_chol n (mp mq Lp Li : M) :
+  kl_rational n mp (mmul n Lp (mT Lp)) mq (mmul n (mT Li) Li)
+  = sum n (fun i => sum n (fun j => mmul n Li Lp i j * mmul n Li Lp i j))
+    + sum n (fun a => mmul n Li (msub mp mq) a O * mmul n Li (msub mp mq) a O) - nat_f n.
+Proof.
+  unfold kl_rational. rewrite trace_chol, quad_chol. reflexivity.
+Qed.
+End Chol.
+
+Lemma rsum_ext m f g : (forall i, f i = g i) -> rsum m f = rsum m g.
+Proof. intros H. induction m as [|m IH]; [reflexivity|]. cbn [rsum]. rewrite IH, H. reflexivity. Qed.
+
+Lemma sum_RF_rsum n (f : nat -> R) : @sum RF n f = rsum n f.
+Proof. induction n as [|n IH]; [reflexivity|]. cbn [sum rsum]. rewrite IH. reflexivity. Qed.
+
+Lemma nat_f_RF n : @nat_f RF n = INR n.
+Proof. unfold nat_f. rewrite sum_RF_rsum, rsum_const. cbn. lra. Qed.
+
+(* 2 KL(p || q) of the model, with P = Lp Lp^T, Q^-1 = Li^T Li (Li = Lq^-1) and the log-det difference
+   ln det Q - ln det P written through the diagonal of W = Li Lp, is non-negative *)
+Theorem kl_model_nonneg n (mp mq Lp Li : @M RF) :
+  (forall i, (i < n)%nat -> 0 < @mmul RF n Li Lp i i) ->
+  0 <= @kl_rational RF n mp (@mmul RF n Lp (@mT RF Lp)) mq (@mmul RF n (@mT RF Li) Li)
+       - rsum n (fun i => ln (@mmul RF n Li Lp i i * @mmul RF n Li Lp i i)).
+Proof.
+  intros Hpos. rewrite kl_rational_chol, nat_f_RF, !sum_RF_rsum.
+  pose proof (kl2_chol_nonneg n (@mmul RF n Li Lp) (fun a => @mmul RF n Li (@msub RF mp mq) a O) Hpos) as H.
+  unfold kl2_chol in H.
+  replace (rsum n (fun i => @sum RF n (fun j => @fmul RF (@mmul RF n Li Lp i j) (@mmul RF n Li Lp i j))))
+    with (rsum n (fun i => rsum n (fun j => @mmul RF n Li Lp i j * @mmul RF n Li Lp i j))).
+  - cbn [fadd fsub fmul RF] in *.
+    repeat match goal with |- context [@sum RF n ?f] =>
+      replace (@sum RF n f) with (rsum n f) by (symmetry; apply sum_RF_rsum) end.
+    lra.
+  - apply rsum_ext. intros i. symmetry. apply (sum_RF_rsum n (fun j => @mmul RF n Li Lp i j * @mmul RF n Li Lp i j)).
 Qed.
